@@ -51,7 +51,9 @@ def run_from_block(ex, fn, bb):
 def entry_step(ses, rep):
     flagged = []
     funcs = ses.mir("bin", "default")
-    ex = ses.executor("bin", "default", inline=lambda n_, f: f.name in ("should_respect_ignores",))
+    # small in-crate helpers are part of the loop body (hooks below take precedence over inlining)
+    ex = ses.executor("bin", "default", inline=lambda n_, f: f.name in ("should_respect_ignores",) or
+                      (clihooks.inline_cli_helpers(n_, f) and f.name not in ("is_explicitly_provided", "path_is_stylua_ignored", "format_file", "format_string")))
     T = ex.enums
     fn = ses.need(ex, "format")
     nxt = [bb for bb, sts in fn.blocks.items() for s in sts if s[0] == "call" and canon(s[2]).endswith("Walk as Iterator>::next")]
